@@ -378,6 +378,8 @@ def _gen(self, name, specdirs, module, cfg, out_path, env=None, timeout=900, sim
                 key.append("%s=%s" % (f, c[f]))
         if "off" in c:
             key.append("far")
+        if "twin" in c:
+            key.append("twin")
         k = " ".join(key)
         hist[k] = hist.get(k, 0) + 1
     self.extra.setdefault("case_histogram", {})[name] = dict(sorted(hist.items())[:60])
